@@ -248,3 +248,54 @@ Definition walk_label (position offset : N) (origin : str) : option (N * N) :=
       let o := if offset + 1 <? len origin then offset + 1 else offset in
       Some (o, len tok)
   end.
+
+(* ---- every node has a pointer ------------------------------------------------------------------- *)
+
+(* the pointer spelled from a selector path: indices in decimal, keys through Token::new *)
+Definition sel_token (s : sel) : str :=
+  match s with
+  | Idx n => dec_of_N (N.of_nat n)
+  | Key k => encode k
+  end.
+
+Definition ptr_of_path (path : list sel) : str := from_tokens_enc (map sel_token path).
+
+(* all selector paths of a document, pre-order *)
+Fixpoint all_paths (d : value) : list (list sel) :=
+  [] ::
+  match d with
+  | Arr l =>
+      (fix go (l : list value) (i : nat) : list (list sel) :=
+         match l with
+         | [] => []
+         | c :: r => map (cons (Idx i)) (all_paths c) ++ go r (S i)
+         end) l O
+  | Obj m =>
+      (fix go (m : list (str * value)) : list (list sel) :=
+         match m with
+         | [] => []
+         | (k, c) :: r => map (cons (Key k)) (all_paths c) ++ go r
+         end) m
+  | _ => []
+  end.
+
+Definition sel_eqb (a b : sel) : bool :=
+  match a, b with
+  | Idx n, Idx m => Nat.eqb n m
+  | Key k, Key j => str_eqb k j
+  | _, _ => false
+  end.
+
+Fixpoint path_eqb (a b : list sel) : bool :=
+  match a, b with
+  | [], [] => true
+  | x :: a', y :: b' => sel_eqb x y && path_eqb a' b'
+  | _, _ => false
+  end.
+
+(* does the pointer spelled from [path] resolve to exactly that node? *)
+Definition node_addressable (d : value) (path : list sel) : bool :=
+  match resolve (ptr_of_path path) d with
+  | Ret (Ok (path', _)) => path_eqb path path'
+  | _ => false
+  end.
